@@ -138,9 +138,15 @@ var _ utils.PriorityQueue
 //@ safety C01
 //@ modifies nothing
 
+// C12 (memory proportional to the data): the search parameters that size allocations are configuration constants or
+// bounded by the number of stored items - never a number taken from a request. memcap() is "what fits in memory".
+//@ spec cfgSized(ix *Hnsw) bool = ix.config != nil && 0 <= ix.config.ef && ix.config.ef <= memcap() && 0 <= ix.config.efConstruction && ix.config.efConstruction <= memcap() && 0 <= ix.config.mMax0 && ix.config.mMax0 <= 65536
+
 //@ func (*index.Hnsw).searchLevel
 //@ props C02 C01
 //@ safety C01
+//@ allocbound C12
+//@ requires [C12 ef-fits] 0 <= ef && ef <= memcap() && this.config != nil && 0 <= this.config.mMax0 && this.config.mMax0 <= 65536
 //@ modifies cells[utils.minPriorityQueue], cells[utils.maxPriorityQueue], mem[*utils.PriorityQueueItem]
 
 //@ func (*index.Hnsw).selectNeighbors
@@ -162,6 +168,8 @@ var _ utils.PriorityQueue
 //@ func (*index.Hnsw).Insert
 //@ props C02 C04
 //@ safety C01
+//@ allocbound C12
+//@ requires [C12 sized] cfgSized(this)
 //@ requires [shards] wfShards(this)
 //@ requires [level] vertexLevel >= 0 && vertexLevel < 2147483648
 //@ ensures [exists] old(live(this, id)) ==> err == ItemAlreadyExistsError && this.len == old(this.len) && this.bytesSize == old(this.bytesSize) && live(this, id) && vertexOf(this, id) == old(vertexOf(this, id))
@@ -198,6 +206,8 @@ var _ utils.PriorityQueue
 //@ func (*index.Hnsw).Search
 //@ props C01 C09
 //@ safety C01
+//@ allocbound C12
+//@ requires [C12 sized] cfgSized(this) && this.len <= memcap()
 //@ modifies cells[utils.minPriorityQueue], cells[utils.maxPriorityQueue], mem[*utils.PriorityQueueItem]
 
 // ---------------------------------------------------------------------------------------------
